@@ -278,6 +278,7 @@ def _run_b_source(case):
     base = dict(shape=SHAPE_B, steps=T, faces=faces, grid="uniform", eps={"tier": "iso", "pat": "distinct", "lo": 1.0, "hi": 2.0}, seed=case["seed"])
     sc_free = scenes.build(base)
     sc = scenes.build(dict(base, sources=[_source_spec(case["obj"], sw or None)]))
+    sc_on = scenes.build(dict(base, sources=[_source_spec(case["obj"], None)]))  # reference: default always-on switch
     if abs(sc.dt - dt) > 0:
         raise RuntimeError("scene dt differs from the dt the schedule was expressed in")
     exp_on, amb = O.switch_oracle(dict(sw), T, dt)
@@ -298,12 +299,23 @@ def _run_b_source(case):
     with jax.disable_jit():
         ref = np.asarray(jax.vmap(linsys.forward_fn(sc_free, codec, 0))(X))
         evals += n + 1
+        b_ref = {}
+        on_idx = O.index_map(exp_on)
         for t in range(T):
             if amb[t]:
                 continue
             out = np.asarray(jax.vmap(linsys.forward_fn(sc, codec, t))(X))
             evals += n + 1
             b_t = out[0]
+            if exp_on[t] and not any(amb[:t]):
+                # the k-th active step injects what the always-on source injects at its step k (time-step -> on-index map)
+                k = on_idx[t]
+                if k not in b_ref:
+                    b_ref[k] = np.asarray(linsys.forward_fn(sc_on, codec, k)(jnp.zeros(n, dtype=codec.dtype)))
+                    evals += 1
+                scale = max(1e-300, float(np.max(np.abs(b_ref[k]))))
+                if float(np.max(np.abs(b_t - b_ref[k]))) > 1e-5 * scale:  # the on-index is interpolated in float32 inside fdtdx
+                    fails.append(dict(sig=f"b:source-active-step-differs-from-on-index-reference:{case['obj']}", detail=dict(step=t, on_index=k, sched=case["sched"], max_diff=float(np.max(np.abs(b_t - b_ref[k]))), ref=scale)))
             if not exp_on[t]:
                 inactive += 1
                 if np.max(np.abs(b_t)) != 0.0:
